@@ -213,9 +213,12 @@ Record rnd := mkR { r_vec : vec; r_logu : Q; r_acc : Z }.
 (* KRec/KMH/KDirect/KNuts: the harness's samplers (see above; KNuts = HybridGibbs' NUTS branch).
    KOpq: a real sampler that caches evaluations of its target (MH, CWMH, MALA, ULA, PCN, NUTS goes through KNuts): the move
          itself is not modelled (the observed next point is replayed) but the cached values are part of the state.
+   KPre: a sampler that PRECOMPUTES a quantity from its target in _initialize (as UGLA, LinearRTO, NUTS do) and uses the
+         precomputed value in step(): here pre = logd(1..1) - logd(0..0), draw = scripted vector + pre.  HybridGibbs must
+         re-run _initialize whenever it re-targets the sampler.
    KConj: cuqi.experimental.mcmc.Conjugate on a Gaussian-Gamma pair: draw = (scripted standard Gamma variate) / rate,
           rate read off the target.   KLrto: LinearRTO with the normal draw scripted to 0: the conditional mean. *)
-Inductive kind := KRec | KMH | KDirect | KNuts | KOpq | KConj | KLrto.
+Inductive kind := KRec | KMH | KDirect | KNuts | KOpq | KConj | KLrto | KPre.
 
 (* numerical helpers on a log-density t (exact for the quadratic targets they are used on) *)
 Fixpoint bump (p : vec) (j : nat) (d : Q) : vec :=
@@ -273,6 +276,7 @@ Definition draw_ok (s : sst) : bool :=
 Definition ctrans (_ : nat) (t : vec -> Q) (s : sst) (r : rnd) : sst :=
   match s_kind s with
   | KRec => set_pt s (r_vec r) (s_cache s) (r_acc r)
+  | KPre => set_pt s (vshift (s_cache s) (r_vec r)) (s_cache s) (r_acc r)     (* s_cache holds the precomputed quantity *)
   | KNuts | KOpq =>                   (* opaque move; afterwards the sampler caches logd and gradient at its new point *)
       set_all s (r_vec r) (t (r_vec r)) (gradq t (s_scale s) (r_vec r)) (r_acc r)
   | KConj =>                          (* t(p) = -rate * p + (terms cancelling in differences): rate = (t[p0] - t[2 p0]) / p0 *)
@@ -311,6 +315,8 @@ Definition creinit (fresh : bool) (_ : nat) (t : vec -> Q) (s : sst) : sst :=
   | KMH => if fresh then mkS KMH (s_pt s) (t (s_pt s)) (s_grad s) (s_scale s) (s_acc s) (s_tunes s) (s_init s) else s
   | KOpq => if fresh then mkS KOpq (s_pt s) (t (s_pt s)) (gradq t (s_scale s) (s_pt s)) (s_scale s) (s_acc s) (s_tunes s) (s_init s) else s
   | KNuts => mkS KNuts (s_pt s) (t (s_pt s)) (gradq t (s_scale s) (s_pt s)) (s_scale s) [1%Z] (s_tunes s) (s_pt s)
+  | KPre =>                          (* reinitialize() runs _initialize on the new target; _pre is not a state key: it stays *)
+      mkS KPre (s_pt s) (t (map (fun _ => 1) (s_pt s)) - t (map (fun _ => 0) (s_pt s))) (s_grad s) (s_scale s) (s_acc s) (s_tunes s) (s_init s)
   | _ => s
   end.
 
@@ -322,7 +328,8 @@ Definition ctune (_ : nat) (skip cnt : nat) (s : sst) : sst :=
 
 (* Sampler.initialize / ProposalBasedSampler.initialize on the first conditional *)
 Definition cinit (k : kind) (p : vec) (scale : Q) (t : vec -> Q) : sst :=
-  mkS k p (t p) (match k with KOpq | KNuts => gradq t scale p | _ => [] end) scale [1%Z] [] p.
+  mkS k p (match k with KPre => t (map (fun _ => 1) p) - t (map (fun _ => 0) p) | _ => t p end)
+      (match k with KOpq | KNuts => gradq t scale p | _ => [] end) scale [1%Z] [] p.
 
 (* HybridGibbs.__init__: initial points (default ones(dim)), targets from the initial points, initialize() *)
 Definition ones (n : nat) : vec := repeat 1 n.
